@@ -21,6 +21,65 @@ from typing import Dict, List, Optional, Set, Tuple
 REFERENCE = os.path.join(os.path.dirname(os.path.dirname(os.path.abspath(__file__))), 'reference_api.json')
 
 
+def attr_signatures(model, cls) -> Dict[str, Set[str]]:
+    """attribute -> {"<function>:S" | "<function>:L"}: in which functions of the class the attribute of self is stored / read.
+    The signature does not depend on the attribute's name, so a consistently renamed private attribute keeps it."""
+    out: Dict[str, Set[str]] = {}
+    for d in (cls.methods, cls.getters, cls.setters):
+        for f in d.values():
+            sn = f.self_name
+            if sn is None:
+                continue
+            for n in ast.walk(f.node):
+                if isinstance(n, ast.Attribute) and isinstance(n.value, ast.Name) and n.value.id == sn:
+                    kind = 'S' if isinstance(n.ctx, (ast.Store, ast.Del)) else 'L'
+                    out.setdefault(n.attr, set()).add('%s:%s' % (f.qualname, kind))
+    return out
+
+
+def load_reference_attrs() -> Dict[str, Dict[str, Set[str]]]:
+    try:
+        with open(REFERENCE) as f:
+            d = json.load(f)
+    except OSError:
+        return {}
+    return {c: {a: set(v) for a, v in m.items()} for c, m in d.get('attrs', {}).items()}
+
+
+def undo_private_renames(model) -> Dict[str, str]:
+    """Map consistently renamed PRIVATE attributes back to their reference names, in place.
+
+    For a class of the reference tree: a reference attribute that is no longer mentioned, and a new attribute (unknown
+    to the reference, underscore-prefixed) with exactly the same store/read signature over the class's functions, are
+    the same attribute under two names.  The new name is rewritten to the reference name everywhere (it must be new to
+    the whole reference, so no other attribute is captured)."""
+    ref = load_reference_attrs()
+    if not ref:
+        return {}
+    all_ref_names = {a for m in ref.values() for a in m}
+    renames: Dict[str, str] = {}
+    for c in model.classes.values():
+        if c.qualname not in ref:
+            continue
+        cur = attr_signatures(model, c)
+        old = {a: sig for a, sig in ref[c.qualname].items() if a not in cur and a.startswith('_')}
+        new = {a: sig for a, sig in cur.items() if a not in ref[c.qualname] and a not in all_ref_names and a.startswith('_')}
+        if not old or not new:
+            continue
+        for o, osig in old.items():
+            cands = [n for n, nsig in new.items() if nsig == osig]
+            back = [o2 for o2, s2 in old.items() if s2 == osig]
+            if len(cands) == 1 and len(back) == 1 and renames.get(cands[0], o) == o:
+                renames[cands[0]] = o
+    if not renames:
+        return {}
+    for m in model.modules.values():
+        for n in ast.walk(m.tree):
+            if isinstance(n, ast.Attribute) and n.attr in renames:
+                n.attr = renames[n.attr]
+    return renames
+
+
 def load_reference() -> Optional[Dict[str, Set[str]]]:
     try:
         with open(REFERENCE) as f:
@@ -582,6 +641,7 @@ def flatten_model(model) -> Optional[Flattener]:
     if ref is None:
         return None
     fl = Flattener(model, ref)
+    fl.renames = undo_private_renames(model)
     funcs = [f for f in model.all_functions() if f.kind != 'nested']
     new = [f for f in funcs if fl.is_new(f)]
     fl.slices = 0
